@@ -43,7 +43,7 @@ def run(R):
     R.extra_cov["tlc_conversion_rows_replayed"] = len(hv)
     tr = os.path.join(R.scratch, "c17.ndjson")
     R.drive("c17", "out=" + tr, "cases=" + cf, "responses=1", timeout=3000)
-    R.validate("Trace_HttpMap", tr, reset_events=("HM", "HR", "HMMany", "HV", "HRV"), timeout=3000)
+    R.validate("Trace_HttpMap", tr, reset_events=("HM", "HR", "HMMany", "HV", "HRV", "HRC"), timeout=3000)
     R.extra_cov["tlc_rows_replayed"] = len(cases)
     return vlib.finish(R, "model_checking", RULE, ASSUME)
 
@@ -55,5 +55,5 @@ def replay(R, path):
         f.write(json.dumps(rec["case"]) + "\n")
     tr = os.path.join(R.scratch, "replay-out.ndjson")
     R.drive("c17", "out=" + tr, "cases=" + cf)
-    R.validate("Trace_HttpMap", tr, reset_events=("HM", "HR", "HMMany", "HV", "HRV"), batches=1)
+    R.validate("Trace_HttpMap", tr, reset_events=("HM", "HR", "HMMany", "HV", "HRV", "HRC"), batches=1)
     return vlib.finish(R, "model_checking", RULE, ASSUME)
